@@ -77,11 +77,17 @@ CLAIMED.update({
             "dominating-guard facts, mini AST evaluator for the loop-body table, constructor-argument quoting rule", "§4 C18"),
 })
 
+CLAIMED.update({
+    "C15": ("Static decision of three structural necessary conditions of 'what follows never moves the boundary': from the per-byte summary of the schema scanner's stateEndTop (SSA partial evaluation, all 256 bytes) "
+            "under <length mode, no annotation open, empty lexeme stack>, every byte other than a blank, `/` and `#` only emits the EndTop lexeme (LF/CR only NewLine); Length() leaves its loop at the EndTop lexeme; "
+            "the candidate length is End()+1 after a lexeme and End() or End()-1 at EndTop, after which exactly SP/TAB/LF/CR are dropped (trim predicate evaluated on all 256 bytes). "
+            "Prefix acceptance, idempotence of Len on the prefix, AST equality and the lexeme positions themselves are NOT decided (they quantify over runs of the scanner).",
+            "SSA partial evaluation per input byte (row of one state under a fixed configuration) + typed-AST arithmetic/shape checks", "§4 C15"),
+})
+
 NOT_YET = {}
 
-NOT_APPLICABLE = {
-    "C15": "Every clause relates byte offsets computed along a run of the scanner (prefix acceptance, idempotence, boundary unaffected by trailers); no structural necessary condition in reach of static analysis decides any of them (DESIGN.md §4 C15).",
-}
+NOT_APPLICABLE = {}
 
 def main():
     props = [json.loads(l)["id"] for l in open(os.path.join(HERE, "properties.jsonl"))]
